@@ -50,7 +50,7 @@ func TestC08Binary(t *testing.T) {
 		for i := 0; i < nHosts; i++ {
 			h, err := dialWS(p.addr, nodeIdent(i), i+1)
 			if err != nil {
-				fail("dial: %v", err)
+				fail("[setup failed] dial: %v", err)
 			}
 			hosts = append(hosts, h)
 			if err := h.connectHost(ctx); err != nil {
